@@ -26,6 +26,11 @@ CHECKS = {
          "Generated search over declarations (every option type, choices on flags) x hostile argv x all 32 parser option sets, and (thorough) a 90 s 16-core coverage-guided fuzz campaign feeding arbitrary bytes as argv to 12 fixed rich declarations. Every call must return (recover + 20 s watchdog), errors must be *flags.Error of the type R attributes (weak documented-type rule where R is undetermined or on raw fuzz input), and fds 1/2 captured at descriptor level must be empty without PrintErrors and carry exactly the error text once on the right stream with it.",
          RNOTE + "; never-hangs is bounded by a watchdog, not proved; process termination (os.Exit) would surface as an inconclusive run, not a violation",
          "DESIGN.md §4 C04"),
+ "C05": ("exploration",
+         "property-based testing (rapid): every subset of value sources per option against the reference ranking cli > ini > env > default > initial, in three INI read orders",
+         "Generated search over options of every non-callback type with independent subsets of {initial value, default tags, environment (unset/set/empty, env-delim, env-namespaces), INI entries, command-line occurrences} and INI read in normal mode before, as-defaults before, and as-defaults after the command line; every field is compared with the value of the highest-ranked present source, winner replacing (not extending) lower sources for slices and maps.",
+         RNOTE + "; INI entries are resolved with the reference INI resolution; rejected env/default values only require the parse to fail (C11 checks the error)",
+         "DESIGN.md §4 C05"),
  "C06": ("exploration",
          "property-based testing (rapid): reference missing-set vs names parsed from ErrRequired messages",
          "Generated search over required marks at every tree level, positional count constraints and argv/env/default supply subsets; ErrRequired must occur exactly when R finds something missing, name exactly R's set, and nothing may be executed.",
